@@ -154,9 +154,12 @@ Section Maps.
     end.
 
   (* RFC 9380 section 6.7.1 (Montgomery point (s, t)), then Appendix D.1 rational map *)
+  (* steps 1-2: x1 = -(J/K) * inv0(1 + Z u^2); if x1 == 0, set x1 = -(J/K) *)
+  Definition ell2_rfc_x1 (jk z u : K) : K :=
+    let t := neg jk * inv0 (one + z * sq u) in if is0 t then neg jk else t.
   Definition ell2_rfc_mont (k j : K) (z u : K) : option (K * K) :=
     let jk := j * inv k in
-    let x1 := let t := neg jk * inv0 (one + z * sq u) in if is0 t then neg jk else t in
+    let x1 := ell2_rfc_x1 jk z u in
     let gx1 := sq x1 * x1 + jk * sq x1 + x1 * inv (sq k) in
     let x2 := neg x1 - jk in
     let gx2 := sq x2 * x2 + jk * sq x2 + x2 * inv (sq k) in
